@@ -1265,6 +1265,112 @@ def r5_10(ctx):
 
 # -- sensitivity suite ---------------------------------------------------------------
 
+# -- R5.12 negative-length slices ---------------------------------------------------
+
+_NEG_SLICE_TRIAGED = {
+    # (file, function, slice text): reason the length cannot be zero
+    ("pytype/tools/analyze_project/pytype_runner.py", "resolved_file_to_module",
+     "full_path[:-len(target)]"):
+        "target is importlab's short_path of a resolved file: never empty",
+    ("pytype/tools/analyze_project/pytype_runner.py", "_module_to_output_path",
+     "path[-len(mod.name):]"):
+        "guarded by path...endswith(mod.name); module names are non-empty",
+}
+
+
+def _neg_len_slices(mod):
+  """(node, which bound, X) for every `a[:-len(X)]` / `a[-len(X):]`."""
+  for n in ast.walk(mod.tree):
+    if isinstance(n, ast.Subscript) and isinstance(n.slice, ast.Slice):
+      for part, which in ((n.slice.lower, "lower"), (n.slice.upper, "upper")):
+        if isinstance(part, ast.UnaryOp) and isinstance(part.op, ast.USub) and \
+            isinstance(part.operand, ast.Call) and dotted(part.operand.func) == "len" \
+            and len(part.operand.args) == 1:
+          yield n, which, part.operand.args[0]
+
+
+def _qualname(mod, node):
+  names = []
+  while node in mod.parent:
+    node = mod.parent[node]
+    if isinstance(node, (ast.FunctionDef, ast.AsyncFunctionDef, ast.ClassDef)):
+      names.append(node.name)
+  return ".".join(reversed(names)) or "<module>"
+
+
+def _nonempty_guarded(mod, node, x):
+  """The slice is only evaluated when X is non-empty."""
+  xs = src(x)
+  truthy = {xs, f"len({xs})", f"len({xs}) > 0", f"len({xs}) >= 1", f"len({xs}) != 0"}
+  st = mod.enclosing_stmt(node)
+  if any(p and t in truthy for t, p in flow.guards_txt(mod.parent, st)):
+    return "guard"
+  cur = node
+  while cur in mod.parent and cur is not st:
+    par = mod.parent[cur]
+    if isinstance(par, ast.IfExp) and cur is par.body and src(par.test) in truthy:
+      return "conditional-expression"
+    if isinstance(par, ast.BoolOp) and isinstance(par.op, ast.And) and \
+        any(src(v) in truthy for v in par.values[:par.values.index(cur)] if v is not cur):
+      return "and-guard"
+    cur = par
+  return None
+
+
+def _neg_slice_scan(ctx, files, tag):
+  n = 0
+  for rel in files:
+    text = ctx.read(rel)
+    if "-len(" not in text.replace(" ", ""):
+      continue
+    mod = get_module(ctx, rel)
+    for node, which, x in _neg_len_slices(mod):
+      n += 1
+      fn = _qualname(mod, node)
+      key = f"{rel}:{fn}:{src(node)}"
+      how = _nonempty_guarded(mod, node, x)
+      par = mod.parent.get(node)
+      if how is None and which == "lower" and isinstance(par, ast.Call) and \
+          dotted(par.func) == "zip" and any(src(a) == src(x) for a in par.args if a is not node):
+        how = "zip-truncation"      # a[-len(X):] zipped with X: empty X yields nothing
+      if how is None and (rel, fn.split(".")[-1], src(node)) in _NEG_SLICE_TRIAGED:
+        how = "triaged: " + _NEG_SLICE_TRIAGED[(rel, fn.split(".")[-1], src(node))]
+      ctx.check(how is not None, key, rel, node.lineno,
+                f"`{src(node)}`: when `{src(x)}` is empty the bound is -0 == 0, "
+                f"so the slice is {'empty' if which == 'upper' else 'the whole sequence'} "
+                f"instead of {'the whole sequence' if which == 'upper' else 'empty'}; "
+                "nothing on the path establishes that it is non-empty",
+                {"bound": which, "discharged_by": how})
+  return n
+
+
+_NEG_SLICE_QUICK = [
+    "pytype/pyi/function.py", "pytype/pyi/parser.py", "pytype/pyi/definitions.py",
+    "pytype/pyi/classdef.py", "pytype/pytd/printer.py", "pytype/pytd/visitors.py",
+    "pytype/pytd/pytd_utils.py", "pytype/load_pytd.py", "pytype/output.py",
+    "pytype/convert.py", "pytype/state.py", "pytype/abstract/_function_base.py",
+    "pytype/abstract/_interpreter_function.py",
+    "pytype/tools/analyze_project/pytype_runner.py",
+]
+
+
+@rule("R5.12", "C05", floor=5)
+def r5_12(ctx):
+  """No slice bound `-len(X)` unless X is known non-empty (the `[:-0]` trap).
+
+  Stub signatures are rebuilt from parallel lists (parameters / defaults); a
+  bound of the form -len(X) silently selects the wrong elements when X is
+  empty.  Accepted: a path condition / conditional expression establishing
+  X's truthiness, the zip-truncation idiom, or a triaged site.
+  """
+  files = _NEG_SLICE_QUICK
+  if ctx.tier == "thorough":
+    from sa.pyindex import all_py_files
+    files = [f for f in all_py_files(ctx) if not f.endswith("_test.py")
+             and "/tests/" not in f]
+  _neg_slice_scan(ctx, files, "q")
+
+
 VARIANTS = [
     # R5.1
     {"name": "drop-VisitLateType", "rule": "R5.1", "file": PRINTER, "expect": "fire",
@@ -1457,4 +1563,16 @@ VARIANTS = [
          (CLASSDEF, "    if keyword not in (\"metaclass\", \"total\"):",
           "    if keyword not in (\"metaclass\", \"total\", \"closed\"):"),
          (DEFS, "      if k.arg != \"total\":", "      if k.arg not in (\"total\", \"closed\"):")]},
+    # R5.12
+    {"name": "defaults-split-with-neg-len-slice", "rule": "R5.12", "file": "pytype/pyi/function.py",
+     "expect": "fire",
+     "old": "  _apply_defaults(posonly_params + pos_params, args.defaults)",
+     "new": "  _apply_defaults(pos_params, args.defaults)\n  _apply_defaults(posonly_params, args.defaults[: -len(pos_params)])"},
+    {"name": "twin-defaults-split-guarded", "rule": "R5.12", "file": "pytype/pyi/function.py",
+     "expect": "silent",
+     "old": "  _apply_defaults(posonly_params + pos_params, args.defaults)",
+     "new": "  _apply_defaults(pos_params, args.defaults)\n  _apply_defaults(posonly_params, args.defaults[: -len(pos_params)] if pos_params else args.defaults)"},
+    {"name": "cell-names-guard-dropped", "rule": "R5.12", "file": "pytype/state.py", "expect": "fire",
+     "old": "    elif freevars:\n      cell_names = f_code.localsplus[: -len(freevars)]\n    else:\n      cell_names = f_code.localsplus",
+     "new": "    else:\n      cell_names = f_code.localsplus[: -len(freevars)]"},
 ]
